@@ -208,8 +208,6 @@ def concat(iters, axis=0):
             event_adapt = comb_set(event_adapt, item.event_adapt)
             fixed = fixed and item.fixed
 
-        if item.linear.shape[1] < num_var:
-            item.linear.resize(item.linear.shape[0], num_var)
         linear_each.append(item.linear)
         const_each.append(item.const)
         idx_each.append(np.arange(count, count+item.size).reshape(item.shape))
@@ -223,6 +221,11 @@ def concat(iters, axis=0):
                   for const in const_each]
 
     idx_all = np.concatenate(idx_each, axis=axis).flatten()
+    num_var = max([num_var] + [each.shape[1] for each in linear_each])
+    linear_each = [each if each.shape[1] == num_var
+                   else csr_matrix((each.data, each.indices, each.indptr),
+                                   shape=(each.shape[0], num_var))
+                   for each in (csr_matrix(each) for each in linear_each)]
     linear_all = sp.vstack(linear_each)[idx_all]
     const_all = np.concatenate(const_each, axis=axis)
 
